@@ -8,7 +8,7 @@ from typing import List
 
 from vf.cond import cond
 
-from .common import drive, Environment, LiquidError, concrete_int, in_alpha
+from .common import drive, Environment, LiquidError, concrete_int, in_alpha, untraced
 
 from liquid2 import RenderContext  # noqa: E402
 from liquid2.builtin.content import ContentNode  # noqa: E402
@@ -214,13 +214,14 @@ def _shape_ok(shape: int, choice: list[int], d: int, sup: bool, x: bool, n: int)
 )
 def t_shape3(shape: int, m0: int, m1: int, m2: int, d: int, sup: bool, x: bool, two: bool) -> bool:
     choice = [m0, concrete_int(m1, 0, 3), concrete_int(m2, 0, 3)]
-    return _shape_ok(shape, choice, concrete_int(d, 0, 2), sup, x, 2 if two else 0)
+    d, sup, x, n = concrete_int(d, 0, 2), bool(sup), bool(x), (2 if two else 0)
+    # markers, configuration and data are concrete from here on: the real parser and renderer run outside the tracer
+    return untraced(lambda: _shape_ok(shape, choice, d, sup, x, n))
 
 
 @cond(
     pre=["0 <= m0 < 4", "0 <= m1 < 4", "0 <= m2 < 4", "0 <= m3 < 4", "0 <= d < 3", "0 <= n <= 2"],
-    timeout=900,
-    tiers=("thorough",),
+    timeout=600,
     shard={"shape": list(range(len(SHAPES))), "m0": [0, 1, 2, 3]},
     covers="for every marker assignment: each ContentNode's left/right trim equals the adjacent markup's right/left marker (carry through blocks, else/when arms, comments, raw, liquid tag), and the render modulo whitespace equals the untrimmed render",
     bounds="9 shapes; 4 independently chosen markers assigned cyclically to all marker positions (4^4 assignments) x default_trim x suppression flag x data (x bool, list len 0..2)",
@@ -229,7 +230,8 @@ def t_shape3(shape: int, m0: int, m1: int, m2: int, d: int, sup: bool, x: bool, 
 )
 def t_shape(shape: int, m0: int, m1: int, m2: int, m3: int, d: int, sup: bool, x: bool, n: int) -> bool:
     choice = [m0, concrete_int(m1, 0, 3), concrete_int(m2, 0, 3), concrete_int(m3, 0, 3)]
-    return _shape_ok(shape, choice, concrete_int(d, 0, 2), sup, x, concrete_int(n, 0, 2))
+    d, sup, x, n = concrete_int(d, 0, 2), bool(sup), bool(x), concrete_int(n, 0, 2)
+    return untraced(lambda: _shape_ok(shape, choice, d, sup, x, n))
 
 
 @cond(
@@ -242,7 +244,8 @@ def t_shape(shape: int, m0: int, m1: int, m2: int, m3: int, d: int, sup: bool, x
 )
 def t_shape6(shape: int, m0: int, m1: int, m2: int, m3: int, m4: int, m5: int, d: int, sup: bool) -> bool:
     choice = [m0] + [concrete_int(m, 0, 3) for m in (m1, m2, m3, m4, m5)]
-    return _shape_ok(shape, choice, concrete_int(d, 0, 2), sup, True, 2)
+    d, sup = concrete_int(d, 0, 2), bool(sup)
+    return untraced(lambda: _shape_ok(shape, choice, d, sup, True, 2))
 
 
 @cond(pre=["0 <= m1 < 4"], twin=True, timeout=60, covers="reachability twin: markers do change the exact output")
